@@ -652,4 +652,86 @@ theorem ARP_unpack_packed (s t : ARP) (sip dip : Nat) (h : ARP_WF s sip dip) :
     simp [fld, arpBytes, slice_skip, slice_all, beNat_beBytes_of_lt 4 _ (show dip < 256 ^ 4 by omega)]
   simp only [f0, f2, f4, f5, f6, f8, f14, f18, f24, ← hs, ← hd]
 
+/-! ### ICMP -/
+
+def ICMP_WF (s : ICMP) : Prop :=
+  s.type < 256 ∧ s.code < 256 ∧ s.request_id < 65536 ∧ s.request_sequence < 65536 ∧ s.payload.length + 8 < 131072
+
+/-- the ICMP message with the two checksum bytes `c` -/
+def icmpBytes (s : ICMP) (c : Bytes) : Bytes :=
+  (encInt true 1 s.type ++ encInt true 1 s.code) ++ (c ++ ((encInt true 2 s.request_id ++ encInt true 2 s.request_sequence) ++ s.payload))
+
+theorem ICMP_pack_eq (s : ICMP) (h : ICMP_WF s) :
+    ICMP.pack s = (s, .ok (icmpBytes s (leBytes 2 (65535 - Sum16.sumFold (Sum16.wordsLE (icmpBytes s [0, 0])).sum)))) := by
+  obtain ⟨h1, h2, h3, h4, h5⟩ := h
+  have hf : Fits ICMP_pack_fmt0.codes [s.type, s.code, 0, s.request_id, s.request_sequence] := by
+    simp [Fits, ICMP_pack_fmt0, Code.bound]; omega
+  have hh : encCodes ICMP_pack_fmt0.big ICMP_pack_fmt0.codes [s.type, s.code, 0, s.request_id, s.request_sequence] =
+      (encInt true 1 s.type ++ encInt true 1 s.code) ++ ([0, 0] ++ (encInt true 2 s.request_id ++ encInt true 2 s.request_sequence)) := by
+    simp [ICMP_pack_fmt0, encCodes, Code.size, encInt_be2_zero]
+  have ht : List.take 2 ((encInt true 1 s.type ++ encInt true 1 s.code) ++ ([0, 0] ++ (encInt true 2 s.request_id ++ encInt true 2 s.request_sequence))) =
+      encInt true 1 s.type ++ encInt true 1 s.code := take_append_len _ _ _ (by simp)
+  have hd : List.drop 4 ((encInt true 1 s.type ++ encInt true 1 s.code) ++ ([0, 0] ++ (encInt true 2 s.request_id ++ encInt true 2 s.request_sequence))) =
+      encInt true 2 s.request_id ++ encInt true 2 s.request_sequence := by
+    rw [← List.append_assoc]; exact drop_append_len _ _ _ (by simp)
+  have hm : ((encInt true 1 s.type ++ encInt true 1 s.code) ++ ([0, 0] ++ (encInt true 2 s.request_id ++ encInt true 2 s.request_sequence))) ++ s.payload =
+      icmpBytes s [0, 0] := by simp [icmpBytes]
+  have hc : Fits ICMP_pack_fmt1.codes [65535 - Sum16.sumFold (Sum16.wordsLE (icmpBytes s [0, 0])).sum] := by
+    simp [Fits, ICMP_pack_fmt1, Code.bound]; omega
+  simp only [ICMP.pack, structPack_eq _ _ hf, hh, ipCalcChecksum_eq, hm, structPack_eq _ _ hc, ht, hd]
+  simp [ICMP_pack_fmt1, encCodes, Code.size, encInt, icmpBytes]
+
+/-! ### IGMPv3 join -/
+
+theorem unpackCodes_u16_be : ∀ (n : Nat) (bs : Bytes), bs.length = 2 * n →
+    unpackCodes true (List.replicate n Code.u16) bs = Spec.wordsBE bs
+  | 0, bs, h => by
+    have : bs = [] := List.eq_nil_of_length_eq_zero (by omega)
+    subst this; rfl
+  | n + 1, [], h => by simp at h
+  | n + 1, [a], h => by simp at h; omega
+  | n + 1, a :: b :: rest, h => by
+    have ih := unpackCodes_u16_be n rest (by simp at h; omega)
+    simp only [List.replicate_succ, unpackCodes, Code.size, List.take_succ_cons, List.take_zero, List.drop_succ_cons,
+      List.drop_zero, ih, Spec.wordsBE, decInt, beNat, List.reverse_cons, List.reverse_nil, List.nil_append,
+      List.cons_append, leNat]
+    simp; omega
+
+theorem onesCompAdd16_eq (a b : Nat) (ha : a ≤ 65535) (hb : b ≤ 65535) : onesCompAdd16 a b = Spec.onesAdd a b := by
+  by_cases h : a + b < 65536
+  · simp [onesCompAdd16, IGMP_MOD, Spec.onesAdd, h]
+  · simp only [onesCompAdd16, IGMP_MOD, Spec.onesAdd, h, if_false]; omega
+
+theorem onesAdd_le (a b : Nat) (ha : a ≤ 65535) (hb : b ≤ 65535) : Spec.onesAdd a b ≤ 65535 := by
+  simp only [Spec.onesAdd]; split <;> omega
+
+theorem foldl_onesCompAdd16 (ws : List Nat) (acc : Nat) (hacc : acc ≤ 65535) (hw : ∀ w ∈ ws, w ≤ 65535) :
+    ws.foldl onesCompAdd16 acc = ws.foldl Spec.onesAdd acc ∧ ws.foldl Spec.onesAdd acc ≤ 65535 := by
+  induction ws generalizing acc with
+  | nil => exact ⟨by simp only [List.foldl_nil], by simpa only [List.foldl_nil] using hacc⟩
+  | cons w ws ih =>
+    have hw1 := hw w List.mem_cons_self
+    rw [List.foldl_cons, List.foldl_cons, onesCompAdd16_eq _ _ hacc hw1]
+    exact ih _ (onesAdd_le _ _ hacc hw1) (fun x hx => hw x (List.mem_cons_of_mem _ hx))
+
+/-- the group records `join_groups` appends -/
+def joinRecords (mode : Nat) (gs : List Nat) : Bytes :=
+  gs.flatMap fun g => (encInt true 1 mode ++ (encInt true 1 0 ++ encInt true 2 0)) ++ beBytes 4 g
+
+theorem joinBody_eq (mode : Nat) (gs : List Nat) (hm : mode < 256) :
+    joinBody mode (gs.map some) = .ok (joinRecords mode gs) := by
+  have hf : Fits IGMP_join_fmt1.codes [mode, 0, 0] := by simp [Fits, IGMP_join_fmt1, Code.bound, hm]
+  induction gs with
+  | nil => rfl
+  | cons g gs ih =>
+    simp only [List.map_cons, joinBody, structPack_eq _ _ hf, ih, joinRecords, List.flatMap_cons]
+    simp [IGMP_join_fmt1, encCodes, Code.size]
+
+theorem joinRecords_length (mode : Nat) (gs : List Nat) : (joinRecords mode gs).length = 8 * gs.length := by
+  induction gs with
+  | nil => rfl
+  | cons g gs ih =>
+    simp only [joinRecords, List.flatMap_cons, List.length_append, encInt_length, beBytes_length, List.length_cons] at ih ⊢
+    omega
+
 end Acra.Lemmas.Net
